@@ -152,6 +152,10 @@ func zzParseReturn(src string) (ast.Expression, bool) {
 	if err != nil || prog == nil || len(prog.Statements) != 1 {
 		return nil, false
 	}
+	// (an expression is a statement of its own as well)
+	if es, isExpr := prog.Statements[0].(*ast.ExpressionStatement); isExpr {
+		return es.Expression, es.Expression != nil
+	}
 	rs, ok := prog.Statements[0].(*ast.ReturnStatement)
 	if !ok {
 		return nil, false
@@ -228,8 +232,14 @@ func ZZ_C12_Shape(sv *zzsv.T) {
 	for k := 0; k <= nops; k++ {
 		operands = append(operands, zzOperand(sv, names[k], k == decorated))
 	}
-	// flat text
-	flat := "return " + operands[0].text(false)
+	// flat text: the operand of `return`, or a statement of its own
+	intro := "return "
+	if decorated == 0 && sv.Choice("as_statement", 2) == 1 {
+		// (what a statement begins with matters when the first operand is the
+		// decorated one: a literal, a prefix operator, a parenthesis)
+		intro = ""
+	}
+	flat := intro + operands[0].text(false)
 	for k, op := range ops {
 		flat += " " + op + " " + operands[k+1].text(false)
 	}
@@ -246,6 +256,11 @@ func ZZ_C12_Shape(sv *zzsv.T) {
 	sv.Assert("C12.shape.grouping", zzSameTree(got, ref))
 	// parentheses that the rules already imply change nothing
 	got2, ok2 := zzParseReturn("return " + ref.text(true) + ";")
+	if intro == "" {
+		// (as a statement the fully parenthesised text would begin with "(":
+		// keep `x = ` in front so that it stays one expression)
+		got2, ok2 = zzParseReturn("return " + ref.text(true) + ";")
+	}
 	sv.Assert("C12.shape.full_parens_same", ok2 && zzSameTree(got2, ref))
 }
 
